@@ -162,7 +162,10 @@ func c02exec(c *h.Ctx, cs *h.Case) {
 			if scr {
 				ct = f.scrambled(isRoot, k, true)
 			} else if len(tk) == 7 && tk[6] == "repeated-server" {
-				ct = c02repeated(f, isRoot, k)
+				// the last node of the list names the server that hosts two nodes
+				ns := strings.Split(tk[2], ",")
+				dup, _ := strconv.Atoi(strings.Split(ns[len(ns)-1], ":")[1])
+				ct = c02repeated(f, isRoot, k, dup)
 			} else if len(tk) == 7 {
 				// a tree the receiver has never seen: same servers and shape over a re-ordered roster
 				ct = f.unknownTree(isRoot, k, rand.New(rand.NewSource(c.Seed*1000003+atomic.AddInt64(&c02unknown, 1))))
@@ -646,6 +649,32 @@ func c02gen(c *h.Ctx, yield func(*h.Case)) {
 						yield(cs)
 					}
 				}
+			}
+		}
+	}
+	// … and a tree in which the receiver's parent's server also hosts the receiver's last child: that child's
+	// node has the parent's id, `aggregate` takes its messages for the parent's (documented boundary, C12/C13)
+	for _, k := range []int{2, 3} {
+		var ns []string
+		for i := 0; i < 2+k-1; i++ {
+			ns = append(ns, fmt.Sprintf("%d:%d", 10+i, i))
+		}
+		ns = append(ns, "10:0")
+		cfgRep := fmt.Sprintf("c02 cfg %s 10 %d 1,2 repeated-server", strings.Join(ns, ","), k)
+		for ty := 1; ty <= 4; ty++ {
+			for _, p := range []string{"0", "2", "-"} {
+				cs := &h.Case{Class: "repeated-server"}
+				cs.Ops = append(cs.Ops, cfgRep)
+				for i := 0; i < k-1; i++ {
+					val++
+					cs.Ops = append(cs.Ops, fmt.Sprintf("c02 msg %d %d %d %d", ty, 12+i, 2+i, val))
+				}
+				val++
+				cs.Ops = append(cs.Ops, fmt.Sprintf("c02 msg %d 10 %s %d", ty, p, val))
+				val++
+				cs.Ops = append(cs.Ops, fmt.Sprintf("c02 msg %d 12 2 %d", ty, val))
+				c.Count("class=repeated-server")
+				yield(cs)
 			}
 		}
 	}
